@@ -337,6 +337,14 @@ Return == /\ phase = "fitting"
 Refuse == /\ phase = "fitting" /\ nfits = 0 /\ TotalData(prob) = 0
           /\ phase' = "refused" /\ UNCHANGED <<prob, bkmask, status, nfits>>
 
+(* Not part of MNext: a fit on data that determine every coefficient formally but whose design matrix  *)
+(* is numerically singular (condition number measured by the harness above 1e5: the normal equations  *)
+(* lose all digits) may give up like an unsupported one.  Used by the trace specification only, for    *)
+(* events the harness measured as such.                                                                *)
+FitGiveUp(st, m2) == /\ CanFit /\ ~TooFewKnots /\ WellSupported(prob, bkmask) /\ st \in {-1, -2}
+                     /\ m2 \subseteq bkmask /\ (bkmask \ m2) \subseteq Interior(prob) /\ ((st = -1) <=> (m2 # bkmask))
+                     /\ status' = st /\ bkmask' = m2 /\ nfits' = nfits + 1 /\ UNCHANGED <<prob, phase>>
+
 MNext == \/ FitOK
          \/ CanDrop /\ \E D \in (SUBSET (bkmask \cap Interior(prob))) \ {{}} : DropTo(bkmask \ D)
          \/ FitFail \/ Return \/ Refuse
